@@ -385,5 +385,5 @@ def run(acc, tier):
         engine.pmap(acc, shard_generated, extra=(500, 300, 200, 2, 3))
     else:
         engine.pmap(acc, shard_exhaustive, extra=(True,))
-        engine.pmap(acc, shard_generated, extra=(1500, 1000, 1000, 3, 4))
-        engine.fuzz(acc, "hyp:pair", CHECKS, 3000, max_len=2048)
+        engine.pmap(acc, shard_generated, extra=(8000, 5000, 5000, 3, 4))
+        engine.fuzz(acc, "hyp:pair", CHECKS, 20000, max_len=2048)
